@@ -208,6 +208,29 @@ def run(ctx: Ctx) -> None:
             continue
         s = ast.unparse(a)
         verdict = None
+        # the expression is evaluated for every flag set an input can carry: frozen  <=>  the input is not borrowed
+        import itertools as _it
+        from ..absint.minieval import Unsupported as _Uns
+        from ..absint.pyeval import Raised as _Raised, Tok as _Tok
+        from .c07_trace import FlagNameEval
+        loop_vars = sorted({n_.id for n_ in ast.walk(a) if isinstance(n_, ast.Name)} - {"InputFlags"})
+        table = {}
+        try:
+            for r_ in range(0, 4):
+                for fl in _it.combinations(("InputFlags.Inout", "InputFlags.Owned", "InputFlags.Comptime"), r_):
+                    if "InputFlags.Inout" in fl and "InputFlags.Owned" in fl:
+                        continue  # contradictory annotations are rejected when the signature is parsed
+                    inp_t = _Tok("inp", flags=set(fl), ty=_Tok("ty", copyable=True, droppable=True))
+                    v_ = FlagNameEval(idx, tf.module.name).ev(a, {nm: inp_t for nm in loop_vars})
+                    if not isinstance(v_, bool):
+                        raise _Uns(f"frozen argument evaluates to {v_!r}")
+                    table[fl] = v_
+            wrong = {", ".join(x.split(".")[1] for x in fl) or "no flags": got for fl, got in table.items() if got != ("InputFlags.Inout" not in fl)}
+            ctx.check(not wrong, "R-C22.2", key, where, {"frozen_arg": s, "flag_sets": len(table), "wrong_for": wrong},
+                      "the frozen flag passed for function inputs is not `Inout not in flags`: owned or by-value inputs mutable, or borrowed inputs frozen")
+            continue
+        except (_Uns, _Raised):
+            pass  # fall back to the recognised spellings below
         if isinstance(a, ast.Compare) and len(a.ops) == 1 and dotted(a.left).endswith("Inout") and ast.unparse(a.comparators[0]).endswith(".flags"):
             verdict = isinstance(a.ops[0], ast.NotIn)
         elif (isinstance(a, ast.UnaryOp) and isinstance(a.op, ast.Not) and isinstance(a.operand, ast.Compare)
